@@ -27,9 +27,9 @@ import (
 func init() { families["datamodel"] = runDataModel }
 
 type dmScenario struct {
-	ID    int           `json:"id"`
-	Decls []render.Decl `json:"decls"`
-	Seed  int64         `json:"seed"`
+	ID     int           `json:"id"`
+	Decls  []render.Decl `json:"decls"`
+	Seed   int64         `json:"seed"`
 	Text   bool          `json:"text"`
 	Direct bool          `json:"direct"`
 	// Mermaid: also draw the whole module with the Mermaid data-model generator (beyond the listed properties)
